@@ -1188,4 +1188,17 @@ theorem parse_saveText (r : PDict Int Node) (h : RegOK r) (hi : regIntsOK r = tr
     parse (saveText r) = .ok (saveSorted r) :=
   parse_render _ (renderable_saveSorted r h hi hc)
 
+theorem saveText_shape (r : PDict Int Node) : ∃ body, saveText r = '{' :: (body ++ ['}']) :=
+  render_obj_shape 0 _
+
+/-- The first `try` block of `load` on a saved file: the bytes decode, the text is not empty, and
+`json.loads` yields the value `save` handed to `json.dumps`. -/
+theorem classify_saveBytes (r : PDict Int Node) (h : RegOK r) (hi : regIntsOK r = true) (hc : Canon r) :
+    classify (saveBytes r) = some (.value (saveSorted r)) := by
+  obtain ⟨body, e⟩ := saveText_shape r
+  have hp := parse_saveText r h hi hc
+  have hdec := decodeUtf8_encode_ascii (saveText r) (render_ascii 0 _)
+  rw [e] at hp hdec
+  simp only [classify, saveBytes, e, hdec, hp]
+
 end AioMySensors.Persist
